@@ -7,7 +7,7 @@ _resumed = re.compile(r'^<\.\.\. ([a-z_0-9]+) resumed>(.*)$', re.S)
 
 
 class Call:
-    __slots__ = ('tid', 'name', 'args', 'ret', 'err', 'raw', 'lineno', 'injected')
+    __slots__ = ('tid', 'name', 'args', 'ret', 'err', 'raw', 'lineno', 'endline', 'injected')
 
     def __repr__(self):
         return '%s(%s) = %s %s' % (self.name, ', '.join(a[:60] for a in self.args), self.ret, self.err or '')
@@ -110,11 +110,14 @@ def parse(path):
             argstr, res = tail[:k], tail[k + 1:]
             c = Call()
             c.tid, c.name, c.raw, c.lineno = tid, name, rest, start_line
+            c.endline = lineno
             c.args = split_args(argstr)
             c.ret, c.err, c.injected = parse_result(res)
             calls.append(c)
-    # calls are ordered by completion; order by start line for a single-threaded driver
-    calls.sort(key=lambda c: c.lineno)
+    # calls are listed in the order of their completion (for one thread that is also the order of
+    # their start; between threads the completion is the instant from which an effect - above all
+    # that of an fsync - can be relied on)
+    calls.sort(key=lambda c: c.endline)
     return calls
 
 
